@@ -13,7 +13,7 @@ Inductive hsys_reply :=
 
 Inductive hsys_step := YStep (conn : N) (op : option hop) (reply : option (string * hsys_reply)) (closed : bool).
 
-Definition hsys_case : Type := nat * nat * bool * nat * nat * N * list hsys_step.
+Definition hsys_case : Type := nat * nat * bool * nat * nat * N * acl_mode * list N * list hsys_step.
 
 Definition le_num (bs : list N) : N := fold_right (fun b acc => b + 256 * acc) 0 bs.
 Definition peer_key_of (p : string * N) : N := be_dec (bytes_of_hex (fst p)) * 65536 + snd p.
@@ -83,8 +83,11 @@ Definition frame_matches (prev : list N) (body : list N) (raw : list N) : bool :
   | ResponseBufferFull => false
   end.
 
+Definition not_allowed_reason : list N :=
+  map (fun a => N.of_nat (Ascii.nat_of_ascii a)) (String.list_ascii_of_string "Info hash not allowed").
+
 Definition http_sys_code_gen (strict : bool) (cut : bool) (c : hsys_case) : N :=
-  let '(sw, k, ka, ms, mp, interval, steps) := c in
+  let '(sw, k, ka, ms, mp, interval, mode, acl, steps) := c in
   let fix go (i : N) (r : rstate) (st : list (N * list N)) (l : list hsys_step) : N :=
     match l with
     | [] => 0
@@ -93,11 +96,16 @@ Definition http_sys_code_gen (strict : bool) (cut : bool) (c : hsys_case) : N :=
     | YStep conn (Some op) None _ :: _ => N.succ i
     | YStep conn (Some op) (Some (raw, y)) closed :: t =>
         let body := body_of y in
+        (* connection.rs handle_request: an announce for a torrent the access list forbids is
+           answered with a failure and never reaches a swarm worker *)
+        let forbidden := http_forbidden mode acl op in
         if frame_matches (prev_of conn st) body (bytes_of_hex raw)
            && downloaded_zero y
-           && content_ok strict cut k mp ms interval r op y
+           && (if forbidden
+               then match y with YFailure reason => bytes_eqb (bytes_of_hex reason) not_allowed_reason | _ => false end
+               else content_ok strict cut k mp ms interval r op y)
            && Bool.eqb closed (negb ka)
-        then go (N.succ i) (fst (hr_step r op))
+        then go (N.succ i) (if forbidden then r else fst (hr_step r op))
                 (set_prev conn (if closed then http_RESPONSE_HEADER_B
                                 else length_field http_RESPONSE_HEADER_A http_RESPONSE_HEADER_B http_RESPONSE_HEADER_C
                                                   (N.to_nat http_RESPONSE_BUFFER_SIZE) body) st) t
